@@ -98,6 +98,17 @@ for rel in ['fs/replicationtracker.go', 'fs/replicationtracker.reinstatefaileddr
     if n0:
         emit(rel, add_import(s, rel))
 
+# 2c. L1 cache: a scheduling point right after every (non-deferred) release of its mutexes, class "l1" (enabled by
+# the race explorer only): lets another thread's critical section be placed between a release and whatever the
+# releasing thread does next without holding the lock
+for rel in ['cache/l1cache.go', 'cache/synchronizedcache.go']:
+    s = load(rel)
+    s, n = re.subn(r'^(\t+)((?:\w+\.)+[lL]ocker\.R?Unlock\(\))\n', r'\1\2\n\1vhook.Point("l1", "after-unlock")\n', s, flags=re.M)
+    if n == 0:
+        missing.append(f'{rel}: non-deferred locker.Unlock()')
+        continue
+    emit(rel, add_import(s, rel))
+
 # 3. virtual clock in the in-memory L2 cache
 for rel in ['cache/l2inmemorycache.go', 'cache/l2inmemorycache.sharded_map.go']:
     s = load(rel)
